@@ -12,7 +12,9 @@ CLAIMED = {
         "text": "Seeded search over interleavings of endpoint sends (reordered/duplicated by the simulated network), "
                 "proxy injections and tracker-window evictions against the real ProxiedCircuit/InjectionTracker; "
                 "the statement's laws (injective, monotone, avoids injected IDs, stable, exact back-translation) are "
-                "checked after every event over the whole in-window ID range. Evidence over sampled histories, not proof.",
+                "checked after every event over the whole in-window ID range; the far end's acknowledgements (appended / "
+                "PacketAck, injected IDs included) travel back through the circuit and their translation is judged too. "
+                "Evidence over sampled histories, not proof.",
         "design_ref": "DESIGN.md §4 C04",
         "note": "Trusted: the harness's own bookkeeping of which wire IDs were injected (read off the wire), asyncio "
                 "scheduling semantics. Assumes no packet-ID wrap-around and carves out IDs at/below an evicted injection.",
@@ -24,7 +26,8 @@ CLAIMED = {
                 "UDP-banned names, no circuit, pre-session), viewer disconnects, late region registration and "
                 "proxy-originated traffic. A black-box wire model predicts forward/discard per datagram; each forward "
                 "must be exactly one datagram to exactly the right peer with identical content (IDs/acks through the ID "
-                "laws), each discard must emit nothing and leave session state untouched. Sampled evidence, not proof.",
+                "laws), each discard must emit nothing and leave session state untouched. Endpoint retransmissions, packet-ID "
+                "leaps beyond the tracker window and regions registered without a handle are included. Sampled evidence.",
         "design_ref": "DESIGN.md §4 C06",
         "note": "Trusted: stub viewer/region framing code (RFC1928 + LLUDP header, written independently of the repo), "
                 "the wire model's reading of 'open circuit'. Datagrams on a closed-but-not-reopened circuit are not judged.",
@@ -37,7 +40,7 @@ CLAIMED = {
                 "after a failed parse). The input space itself is only sampled."
                 " Also: an addon that takes messages, holds the unparsed copy across other traffic and re-sends it; "
                 "over-limit zero-code runs appended in flight; encodes that fail half-way on the shared encoder / "
-                "circuit.send of an unencodable message between other traffic.",
+                "circuit.send of an unencodable message between other traffic; values that exactly fill their length prefix.",
         "design_ref": "DESIGN.md §4 C02",
         "note": "Trusted: the stub's reference zero-coder (decides canonicity) and header parser. Known finding: F32 signalling "
                 "NaNs produced by byte damage are quieted on re-encode (known_findings.json).",
@@ -51,7 +54,8 @@ CLAIMED = {
                 "dropped reliable packet, resend cadence / budget / stop-after-ack, completion future flips exactly in "
                 "the event that processed the ack or fails on budget exhaustion."
                 " Process stalls (blocked for 0.5-12 resend intervals) are injected: the cadence's lower bound always "
-                "holds, its upper bound is extended by the stalled time.",
+                "holds, its upper bound is extended by the stalled time. Awaiters that give up (cancelled futures), reliable "
+                "sends that cannot be encoded and endpoint retransmissions carrying fresh acks are part of the alphabet.",
         "design_ref": "DESIGN.md §4 C05",
         "note": "Trusted: stub endpoints acknowledge only what they received; cadence judged with one-tick tolerance; "
                 "StartPingCheck rewriting not judged; tracker window at production size.",
@@ -67,7 +71,10 @@ CLAIMED = {
                 "(handle_object_updated / killed) on tagged ObjectUpdate / KillObject traffic, permanent session- and "
                 "region-level subscribers (observing, raising, with a raising predicate, subscribing from inside their "
                 "handler), abnormal exits of subscribe_async blocks and cancelled waiters are part of the alphabet: every "
-                "addon's object hook and every still-waiting subscriber is asked exactly once whatever the others did.",
+                "addon's object hook and every still-waiting subscriber is asked exactly once whatever the others did. A "
+                "file-based addon (scratch directory, virtual mtimes through the get_mtime seam; observer or take-and-re-send "
+                "relay; optional hot-reloaded helper module) is edited into valid / broken / missing states across reload "
+                "windows; coroutine subscribers run as tasks.",
         "design_ref": "DESIGN.md §4 C07",
         "note": "Trusted: the intended first-truthy short-circuit semantics as read from AddonManager; explicit drop after "
                 "take treated as legal.",
@@ -81,7 +88,8 @@ CLAIMED = {
                 "packet once and an unreliable one per delivery; send futures flip exactly in the event that processed "
                 "their ack, fail with TimeoutError after exactly the transmission budget; first-transmission IDs strictly "
                 "increase and retransmissions reuse their ID. The circuit may be torn down and re-opened mid-run "
-                "(region.disconnect, UseCircuitCode again): nothing of its previous life may be retransmitted.",
+                "(region.disconnect, UseCircuitCode again, optionally alive only once that is acked): nothing of its previous "
+                "life may be retransmitted. One-off waiters with permanent subscribers right behind them; awaiters that give up.",
         "design_ref": "DESIGN.md §4 C19",
         "note": "Trusted: stub simulator framing; login/Seed/EQ HTTP bypassed (session built from login data as login() "
                 "does). A retransmission is only judged while fewer than 1000 newer reliable IDs lie in between (bursts of "
@@ -113,7 +121,7 @@ CLAIMED = {
         "note": "Trusted: the reference scene-graph model (~120 lines); object message bodies are built with the repo's own "
                 "serializer (as its tests do). Seated avatars are modelled as the code and the reference viewer treat "
                 "them (exempt from cascading kills); child order not judged. Failing observers (addon object hooks, "
-                "object-event subscribers) run alongside in 3 of 5 plans.",
+                "object-event subscribers) run alongside in 3 of 5 plans. A torn-down region may be entered again.",
     },
     "C15": {
         "text": "Both OS processes of the HTTP side (real SLMITMAddon hooks + callback pump, real MITMProxyEventManager.run) "
@@ -125,7 +133,9 @@ CLAIMED = {
                 "(from the pump call that handled it unless taken, else exactly when the addon resumes, never if it never "
                 "does), exactly one mitm-side resume per callback, prompt hand-back, flows complete, routing metadata / "
                 "flags / rewritten URL / injected response intact across both crossings. A session may be closed and "
-                "garbage-collected while its flows are parked with an addon's worker: release must still hand back.",
+                "garbage-collected while its flows are parked with an addon's worker: release must still hand back. Addons "
+                "may pre-empt a flow they released (the answer must cross once, intact, and be applied if it beats the "
+                "origin); coroutines wait for a cap's response with wait_for and are sometimes abandoned while subscribed.",
         "design_ref": "DESIGN.md §4 C15",
         "note": "Trusted: the stub of mitmproxy's protocol core (hook order only). What an addon injects/rewrites on wrapper-cap "
                 "or repeated EventQueueGet flows is not judged (the event manager itself re-points those after the hooks).",
@@ -138,7 +148,8 @@ CLAIMED = {
                 "1-2 sessions x 1-3 regions with queue latency. A reference grant model is replayed over the main "
                 "process's own order of work; every lookup, Seed upstream body, Seed viewer response (wrapper URLs, "
                 "proxy-only URLs), by-name read, temporary consumption and proxy-cap idempotence is checked against it. "
-                "Temp-heavy runs keep several one-shot caps of one kind outstanding in one region.",
+                "Temp-heavy runs keep several one-shot caps of one kind outstanding in one region; the asset service may move "
+                "between grants (older wrapper URLs stay valid); regions may be torn down; seed URIs may end in a slash.",
         "design_ref": "DESIGN.md §4 C16",
         "note": "Trusted: the reference grant model. A URL extending several granted URLs may resolve to any of them; plain "
                 "asset caps resolve to name+URL only.",
@@ -153,7 +164,8 @@ CLAIMED = {
                 "undef-on-empty, replay from cache without contacting the origin); the viewer-side concatenation and "
                 "the session's region list (one entry per announced address) are checked. Addons may inject a replacement "
                 "from inside handle_eq_event (accepted in this or the next events-carrying response); a poll the proxy "
-                "answers by itself without a previous events-carrying response for that ack is a violation.",
+                "answers by itself without a previous events-carrying response for that ack is a violation. Announcements may "
+                "name a region the viewer already polls (also torn down, also with a fresh seed).",
         "design_ref": "DESIGN.md §4 C17",
         "note": "Trusted: the reference EQ model. Viewer only repeats an ack after a lost response; malformed polls are "
                 "C15's alphabet; injections pending at teardown may vanish.",
@@ -167,7 +179,10 @@ CLAIMED = {
                 "snapshots taken at log time plus a model of the retention rule decide: match(short_circuit on/off) agree "
                 "and equal the evaluator without raising; list(logger) == retained matching entries in arrival order; "
                 "export->import and freeze->thaw preserve the message. Filters on Meta.CurrentSelectedLocal change truth "
-                "when the operator selects another object; the same filter text may be applied again.",
+                "when the operator selects another object; the same filter text may be applied again. Observation happens at "
+                "the wrapper every producer logs through (a second window may be attached first); proxy injections renumber "
+                "messages after they were logged; after a disconnect the connection's objects are really collected and "
+                "everything still retained is thawed.",
         "design_ref": "DESIGN.md §4 C18",
         "note": "Trusted: the independent evaluator's reading of when a comparison applies (stated in the evidence "
                 "assumptions). Only the generated grammar subset is exercised.",
